@@ -64,7 +64,7 @@ class Interner:
         return d[text]
 
 
-def cfg_text(kinds, maxlen=3, chars=(1, 4, 18, 0, 20, 21), maxrows=2, colsets="CS1", maxtables=3, keyvals=(1, 2, 3), mutations=(), invs=INVS, emit=True, cellids=(1, 2, 3, 4)):
+def cfg_text(kinds, maxlen=3, chars=(1, 4, 18, 0, 20, 21, 22), maxrows=2, colsets="CS1", maxtables=3, keyvals=(1, 2, 3), mutations=(), invs=INVS, emit=True, cellids=(1, 2, 3, 4)):
     t = "SPECIFICATION Spec\nCONSTANTS\n"
     t += f"  MaxLen = {maxlen}\n  Chars = {{{', '.join(map(str, chars))}}}\n  MaxRows = {maxrows}\n  ColSets <- {colsets}\n  CellIds = {{{', '.join(map(str, cellids))}}}\n"
     t += f"  MaxTables = {maxtables}\n  KeyVals = {{{', '.join(map(str, keyvals))}}}\n"
@@ -91,7 +91,9 @@ def run_cfg(ctx, name, text, stdfile, expect_violation=None, workers=16):
 
 # ---------------------------------------------------------------- predicates
 
-NONAA = {20: ["X", "1", " ", "*", "B"], 21: ["c", "a", "f"]}
+# concrete characters of the non-amino-acid classes: 20 other printable / look-alike characters, 21 lower case, 22 line ends and
+# other control characters (what an unstripped line of a file carries)
+NONAA = {20: ["X", "1", " ", "*", "B", "-", ".", "\u0421", "\u00e9", "Z", "O", "U"], 21: ["c", "a", "f", "w"], 22: ["\n", "\r", "\t", "\x00", "\n"]}
 
 
 def concrete_objects(obj, n):
